@@ -9,6 +9,7 @@ RULE = ("seeded histories (5-30 ops, multiplication / mul_add heavy, "
         "without declared order, legacy points; toy curves and 6% named "
         "curves; non-trivial = >= 2 state-changing operations or >= 1 fault; "
         "distinct = distinct sha256 of the operation/outcome log")
+HISTORY_DIFF = {"quick": 120, "thorough": 1000}
 REQUIRED_PROBES = {"quick": [], "thorough": []}
 
 
